@@ -109,6 +109,12 @@ XFirstEnd(xi, p1, p2) == IF XDet3(p1, p2, xi) > 0 THEN 1 ELSE 2
 XOnHoroArc(xi, p1, p2, z) ==
   z = p1 \/ z = p2 \/ (IF XFirstEnd(xi, p1, p2) = 1 THEN XDet3(p1, z, p2) > 0 ELSE XDet3(p2, z, p1) > 0)
 
+\* independent description of the same arc: along a horocycle the hyperbolic distance from a point grows with the
+\* horocyclic distance, so the arc between p1 and p2 consists of the points at most as far from p1, and from p2, as
+\* these are from each other (cosh d(x, y) = -<x, y> / (s_x s_y), s = sqrt(-<x, x>): integers on the square universe)
+XCloser(a, z, b) == (0 - MDot(a, z)) * DgS(b) <= (0 - MDot(a, b)) * DgS(z)        \* d(a, z) <= d(a, b)
+XMetricBetween(p1, p2, z) == XCloser(p1, z, p2) /\ XCloser(p2, z, p1)
+
 XHoroArc(m, xi, p1, p2) ==
   LET h == DgHoro(m, xi, p1)
       f == XFirstEnd(xi, p1, p2)
@@ -127,6 +133,7 @@ XHoroArcTheorem(m, xi, p1, p2, U) ==
   /\ \A z \in U : (~DgIdeal(z) /\ DgDefined(m, z) /\ XSameHoro(xi, p1, z) /\ z # p1 /\ z # p2) =>
         /\ XCyclicOrder3(m, p1, z, p2)
         /\ XOnHoroArc(xi, p1, p2, z) <=> XOnHoroArc(xi, p2, p1, z)                      \* an arc has no direction
+        /\ XOnHoroArc(xi, p1, p2, z) <=> XMetricBetween(p1, p2, z)                      \* it is the bounded one
 XHoroArcEquivariant(xi, p1, p2, T, U) ==
   \A z \in U : (~DgIdeal(z) /\ XSameHoro(xi, p1, z)) =>
      (XOnHoroArc(xi, p1, p2, z) <=> XOnHoroArc(DgAct(T, xi), DgAct(T, p1), DgAct(T, p2), DgAct(T, z)))
